@@ -17,6 +17,11 @@ static EXEC_OVER: AtomicBool = AtomicBool::new(true);
 pub static TIMER_TASK: AtomicUsize = AtomicUsize::new(usize::MAX);
 /// Number of scheduling points passed in this execution.
 pub static SCHED_POINTS: AtomicU64 = AtomicU64::new(0);
+/// Task id of a harness thread polling for a database instance to become quiescent (usize::MAX: none).
+pub static QUIESCE_POLLER: AtomicUsize = AtomicUsize::new(usize::MAX);
+/// Set by the scheduler when the poller is the only thread that can still make progress and no
+/// timer is pending: whatever is left of the instance is blocked for good.
+pub static QUIESCE_INERT: AtomicBool = AtomicBool::new(false);
 
 pub fn set_exec_over(v: bool) {
     EXEC_OVER.store(v, Ordering::SeqCst);
@@ -333,6 +338,8 @@ pub fn install_ctx(seed: u64) {
     crate::fs::reset_run_state(seed);
     TIMER_TASK.store(usize::MAX, Ordering::SeqCst);
     SCHED_POINTS.store(0, Ordering::SeqCst);
+    QUIESCE_POLLER.store(usize::MAX, Ordering::SeqCst);
+    QUIESCE_INERT.store(false, Ordering::SeqCst);
     WAIT_REASONS.lock().unwrap().clear();
 }
 
@@ -484,6 +491,9 @@ pub fn trigger_wait(id: usize) -> bool {
 /// thread wrapper (and prints nothing). Call from inside the first execution, after shuttle
 /// installed its own hook.
 pub fn install_panic_hook() {
+    if std::env::var_os("LSIM_DEFAULT_HOOK").is_some() {
+        return;
+    }
     std::panic::set_hook(Box::new(|info| {
         let msg = if let Some(s) = info.payload().downcast_ref::<&str>() {
             s.to_string()
@@ -492,11 +502,14 @@ pub fn install_panic_hook() {
         } else {
             "<non-string panic payload>".to_string()
         };
+        // the database can format strings that are not UTF-8 into its panic messages
+        let msg = String::from_utf8_lossy(msg.as_bytes()).into_owned();
         let loc = info
             .location()
             .map(|l| format!("{}:{}", l.file(), l.line()))
             .unwrap_or_else(|| "<unknown>".into());
-        if std::env::var_os("LSIM_PRINT_PANICS").is_some() {
+        if std::env::var_os("LSIM_PRINT_PANICS").is_some() || exec_over() {
+            // (a panic outside a simulated execution is a harness failure: always shown)
             eprintln!("[lsim] panic at {loc}: {msg}");
         }
         if let Ok(mut g) = CTX.try_lock() {
